@@ -187,7 +187,9 @@ def op_minify(req):
         res['compile_out_err'] = cerr2
         if req.get('strict'):
             # strict identity between parse(out) and parse(src) (meaningful when all transforms are off)
-            t2, perr2 = try_parse(out if not PY2 else (b'# -*- coding: utf-8 -*-\n' + out.encode('utf-8')))
+            # the result *encoded as UTF-8* must denote the same program: parse the bytes, the way the interpreter reads a file
+            # (on 2.x a file without a declaration is ASCII, so the declaration is supplied there)
+            t2, perr2 = try_parse(out.encode('utf-8', 'surrogatepass') if not PY2 else (b'# -*- coding: utf-8 -*-\n' + out.encode('utf-8')))
             if t2 is None or tree is None:
                 res['strict_equal'] = False
                 res['strict_diff'] = 'output does not parse: %s' % perr2
